@@ -9,8 +9,10 @@ import json, os
 from vlib import core
 from checks import e2e
 
+ENABLED = {f["id"] for f in core.known_findings() if f["status"] == "open" and ("C03" in f["property"].split(",") or "C02" in f["property"].split(","))} | {"_none_"}
+
 MLANES = ["map", "omap", "tmap"]
-CONSTS = {"MLanes": set(MLANES), "Remotes": {1, 2, 3}, "Keys": {1, 2, 3}}
+CONSTS = {"MLanes": set(MLANES), "Remotes": {1, 2, 3}, "Keys": {1, 2, 3}, "EnabledFindings": ENABLED}
 
 
 def profiles(tier):
@@ -61,7 +63,7 @@ def replay(path, out):
         return k_mapqueue.replay(path, out)
     wd = core.workdir("C02_replay")
     case = obj["case"]
-    cases, results = e2e.run_scripts(wd, [case["acts"]], case.get("cfg", {}), tag="replay", final=())
+    cases, results = e2e.run_scripts(wd, [case["acts"]], case.get("cfg", {}), tag="replay", final=(), vary=False)
     ev = project(results[0]["log"])
     res = e2e.validate("Trace_MapReplica", ev, os.path.join(wd, "tv"), CONSTS)
     print(json.dumps(res))
